@@ -203,7 +203,32 @@ def jwe_row(alg, kind, private, use, ops, encrypting, oct_len, rsa_bits, cek_len
     return ok
 
 
-def _jwe(alg_i, kind_i, private, use_i, ops_i, oct_len, rsa_bits, encrypting, enc_i, epk_kind_i, v0, v1):
+def _jwe_call(form, encrypting, hdr, key, alg, encname, tok_parts=None):
+    """form 0: compact; 1: flattened JSON, key given to the call; 2: flattened JSON, key attached with add_recipient (encrypt only;
+    decrypt: key returned by a callable); 3: general JSON, key given to the call"""
+    algs = [alg, encname]
+    if encrypting:
+        if form == 0:
+            return jwe.encrypt_compact(dict(hdr), b"plaintext", key, algorithms=algs)
+        cls = jwe.GeneralJSONEncryption if form == 3 else jwe.FlattenedJSONEncryption
+        obj = cls({k: v for k, v in hdr.items() if k != "alg"}, b"plaintext")
+        if form == 2:
+            obj.add_recipient({"alg": alg}, key)
+            return jwe.encrypt_json(obj, None, algorithms=algs)
+        obj.add_recipient({"alg": alg})
+        return jwe.encrypt_json(obj, key, algorithms=algs)
+    prot, ek, iv, ct, tag = tok_parts
+    if form == 0:
+        return jwe.decrypt_compact(".".join(tok_parts), key, algorithms=algs)
+    v = {"protected": prot, "iv": iv, "ciphertext": ct, "tag": tag}
+    if form == 3:
+        v["recipients"] = [{"encrypted_key": ek} if ek else {}]
+    elif ek:
+        v["encrypted_key"] = ek
+    return jwe.decrypt_json(v, (lambda recipient: key) if form == 2 else key, algorithms=algs)
+
+
+def _jwe(alg_i, kind_i, private, use_i, ops_i, oct_len, rsa_bits, encrypting, enc_i, epk_kind_i, v0, v1, form=0):
     rt.tick()
     alg, kind, use, ops = JWE_ALGS[alg_i], KINDS[kind_i], USES[use_i], OPSETS[ops_i]
     if alg.startswith("PBES2"):
@@ -224,11 +249,8 @@ def _jwe(alg_i, kind_i, private, use_i, ops_i, oct_len, rsa_bits, encrypting, en
     env.ceks = [bytes(cek_len), bytes(cek_len)]
     with env.installed(jpatches()):
         try:
-            if encrypting:
-                jwe.encrypt_compact(dict(hdr), b"plaintext", key, algorithms=[alg, encname])
-            else:
-                ek = b"" if alg in ("dir", "ECDH-ES") else b"EKSEG"
-                jwe.decrypt_compact(b"PROTSEG." + ek + b".IVSEG.CTSEG.TAGSEG", key, algorithms=[alg, encname])
+            ek = "" if alg in ("dir", "ECDH-ES") else "EKSEG"
+            _jwe_call(form, encrypting, hdr, key, alg, encname, ("PROTSEG", ek, "IVSEG", "CTSEG", "TAGSEG"))
             returned = True
         except ice.HarnessError:
             raise
@@ -273,6 +295,25 @@ def jwe_use_ops(alg_i: int, use_i: int, ops_i: int, private: bool, oct_len: int,
     POST: _
     """
     return _jwe(alg_i, RIGHT_JWE[alg_i], private, use_i, ops_i, oct_len, 2048, encrypting, 0, RIGHT_JWE[alg_i], v0, v1)
+
+
+def jwe_kind_json(alg_i: int, kind_i: int, private: bool, encrypting: bool, form: int, v0: bool, v1: bool) -> bool:
+    """
+    PRE: 0 <= alg_i < 12 and 0 <= kind_i < 10 and 1 <= form <= 3
+    POST: _
+    """
+    n = KW_SIZE.get(JWE_ALGS[alg_i], 16)
+    return _jwe(alg_i, kind_i, private, 0, 0, n, 2048, encrypting, 0, kind_i, v0, v1, form)
+
+
+def jwe_use_ops_json(alg_i: int, use_i: int, ops_i: int, private: bool, encrypting: bool, form: int, v0: bool, v1: bool) -> bool:
+    """
+    PRE: 0 <= alg_i < 12 and 0 <= use_i <= 2 and 0 <= ops_i < 11 and 1 <= form <= 3
+    PRE: consistent(USES[use_i], OPSETS[ops_i])
+    POST: _
+    """
+    n = KW_SIZE.get(JWE_ALGS[alg_i], 16)
+    return _jwe(alg_i, RIGHT_JWE[alg_i], private, use_i, ops_i, n, 2048, encrypting, 0, RIGHT_JWE[alg_i], v0, v1, form)
 
 
 def jwe_ecdh_curves(kw: bool, kind_i: int, epk_kind_i: int, private: bool, v0: bool, v1: bool) -> bool:
@@ -395,8 +436,17 @@ def replay(func, call):
         ok = jws_row(alg, kind, private, use, ops, signing)
         return {"violated": returned and not ok, "key": "c06-jws", "detail": "alg=%s key=%s private=%s use=%s key_ops=%s op=%d -> %s; the statement %s it" %
                 (alg, kind, private, use, ops, op, "succeeded" if returned else "failed (%s)" % type(err).__name__, "allows" if ok else "forbids")}
-    if func in ("jwe_key", "jwe_ecdh_curves", "jwe_kind", "jwe_use_ops"):
-        if func == "jwe_key":
+    if func in ("jwe_key", "jwe_ecdh_curves", "jwe_kind", "jwe_use_ops", "jwe_kind_json", "jwe_use_ops_json"):
+        form = 0
+        if func == "jwe_kind_json":
+            alg_i, kind_i, private, encrypting, form, v0, v1 = args
+            use_i = ops_i = 0
+            epk_kind_i, oct_len, rsa_bits, enc_i = kind_i, KW_SIZE.get(JWE_ALGS[alg_i], 16), 2048, 0
+        elif func == "jwe_use_ops_json":
+            alg_i, use_i, ops_i, private, encrypting, form, v0, v1 = args
+            kind_i = epk_kind_i = RIGHT_JWE[alg_i]
+            oct_len, rsa_bits, enc_i = KW_SIZE.get(JWE_ALGS[alg_i], 16), 2048, 0
+        elif func == "jwe_key":
             alg_i, kind_i, private, use_i, ops_i, oct_len, rsa_bits, encrypting, enc_i, v0, v1 = args
             epk_kind_i = kind_i
         elif func == "jwe_kind":
@@ -418,7 +468,7 @@ def replay(func, call):
             return {"violated": False, "detail": "key refused at import: %r" % (e,)}
         try:
             if encrypting:
-                jwe.encrypt_compact({"alg": alg, "enc": encname}, b"plaintext", key, algorithms=[alg, encname])
+                _jwe_call(form, True, {"alg": alg, "enc": encname}, key, alg, encname)
             else:
                 # an honest token for this key when the independent implementation can make one; wrong-size AES keys are used as the
                 # primitive would use them (any valid AES size)
@@ -447,8 +497,7 @@ def replay(func, call):
                     ct, tag = R.content_encrypt(encname, cek if len(cek) == cek_len else bytes(cek_len), iv, hseg.encode(), b"plaintext")
                 except Exception:  # noqa
                     ct, tag = b"x" * 16, bytes(16)
-                tok = ".".join([hseg, R.b64e(ek), R.b64e(iv), R.b64e(ct), R.b64e(tag)])
-                jwe.decrypt_compact(tok, key, algorithms=[alg, encname])
+                _jwe_call(form, False, hdr, key, alg, encname, (hseg, R.b64e(ek), R.b64e(iv), R.b64e(ct), R.b64e(tag)))
             returned, err = True, None
         except Exception as e:  # noqa
             returned, err = False, e
@@ -456,6 +505,6 @@ def replay(func, call):
         if alg.startswith("ECDH") and not encrypting and KINDS[epk_kind_i] != kind:
             ok = False
         return {"violated": returned and not ok, "key": "c06-jwe", "detail": "alg=%s enc=%s key=%s (oct %d octets / RSA %d bits) private=%s use=%s key_ops=%s %s -> %s; the statement %s it" %
-                (alg, encname, kind, oct_len, rsa_bits, private, use, ops, "encrypt" if encrypting else "decrypt",
+                (alg, encname, kind, oct_len, rsa_bits, private, use, ops, ("encrypt" if encrypting else "decrypt") + " (%s)" % ["compact", "flattened JSON, key given to the call", "flattened JSON, key attached to the recipient / callable", "general JSON"][form],
                  "succeeded" if returned else "failed (%s)" % type(err).__name__, "allows" if ok else "forbids")}
     return {"violated": None, "detail": "no replay for " + func}
